@@ -409,6 +409,35 @@ def p4(e: Engine, rep: Report):
         rep.error('anchor vanished: recipient rewrite in Forward.apply')
     inner = [n for n in g.of_kind('iter') if isinstance(n.ast, ast.For) and
              'mapping' in ast.unparse(n.ast.iter)]
+    # every recipient is put to the rules: from the start of an iteration
+    # over the recipients no path comes back to the loop head (or leaves
+    # apply) without having entered the rule loop
+    outer = [n for n in g.of_kind('iter') if isinstance(n.ast, ast.For) and
+             n not in inner and n.frame is g.entry.frame and any(
+                 sc.kind == 'loop' and sc.ast is n.ast
+                 for i2 in inner for sc in i2.scopes)]
+    rep.evaluations += 1
+    if not inner or not outer:
+        rep.error('anchor vanished: recipient loop / rule loop in '
+                  'Forward.apply')
+    for lp in outer:
+        starts = [s2 for l, s2 in lp.succ if l == 'body']
+        pth = None
+        for s0 in starts:
+            pth = pth or dataflow.find_path(
+                g, s0, lambda x: x is lp or x is g.exit,
+                avoid=lambda x: x in inner,
+                edge_ok=lambda a, l, s2: not isinstance(l, tuple))
+        rep.check(pth is None, 'P4', where,
+                  'every recipient is put to the rules',
+                  'an iteration over the recipients can finish without '
+                  'entering the loop over the forwarding rules: a '
+                  'recipient some rule matches is skipped (a pre-filter '
+                  'that does not decide exactly like the rules - flags of '
+                  'compiled patterns, anchors - lets it through '
+                  'unforwarded)', loc=lp.loc(),
+                  reason='rule loop entered on every path of the iteration',
+                  witness=dataflow.render_path(pth) if pth else None)
     for n in ws:
         rep.evaluations += 2
         st = fx.at(n) or frozenset()
